@@ -670,6 +670,68 @@ def rule_handle_ctor(text, dropped):
     return text
 
 
+def rule_iter_arg(text, dropped):
+    """an iterator chain used as a value -- `X.iter()` followed by `.filter(|p| C)` / `.map(|p| E)` stages (at least one),
+    not followed by another adapter -- becomes a block that builds a Vec with an explicit loop, the closure bodies
+    verbatim (the unit supplies `verif_new_vec()`, which only fixes the element type): `{ let mut verif_v = verif_new_vec(); for verif_x in X.iter() { [if C {] verif_v.push(E); [}] } verif_v }`.
+    Stages apply in source order; a `.filter` after a `.map` sees the mapped value. Soft rule."""
+    n = 0
+    while True:
+        if n > 10:
+            raise SliceError('iter-arg: too many rewrites')
+        toks, match = _stmt_tokens(text)
+        target = None
+        for i in range(len(toks) - 6):
+            if not (toks[i].text == '.' and toks[i + 1].text == 'iter' and toks[i + 2].text == '(' and toks[i + 3].text == ')'):
+                continue
+            k = i + 4
+            stages = []
+            while (k + 3 < len(toks) and toks[k].text == '.' and toks[k + 1].text in ('filter', 'map') and toks[k + 2].text == '('
+                   and toks[k + 3].text == '|'):
+                close = match[k + 2]
+                b = k + 4
+                while b < close and toks[b].text != '|':
+                    b = match[b] + 1 if toks[b].text in OPEN else b + 1
+                pat = text[toks[k + 4].s:toks[b - 1].e]
+                body = text[toks[b].e:toks[close].s]
+                stages.append((toks[k + 1].text, pat, body))
+                k = close + 1
+            if not stages:
+                continue
+            # another adapter / consumer follows (e.g. .collect_vec(), .sum()): not this rule's shape
+            if k < len(toks) and toks[k].text == '.':
+                continue
+            target = (i, k - 1, stages)
+            break
+        if target is None:
+            break
+        i, last, stages = target
+        r0 = _postfix_start(toks, match, i)
+        recv = text[toks[r0].s:toks[i].s]
+        cur = 'verif_x'
+        pre = ''
+        closes = ''
+        for idx, (kind, pat, body) in enumerate(stages):
+            if kind == 'filter':
+                pre += f'if ({{ let {pat} = &{cur}; {body} }}) {{ '
+                closes = ' }' + closes
+            else:
+                nxt = f'verif_y{idx}'
+                pre += f'let {nxt} = {{ let {pat} = {cur}; {body} }}; '
+                cur = nxt
+        new = f'{{ let mut verif_v = verif_new_vec(); for verif_x in {recv}.iter() {{ {pre}verif_v.push({cur});{closes} }} verif_v }}'
+        old = text[toks[r0].s:toks[last].e]
+        d = old.count('\n') - new.count('\n')
+        if d < 0:
+            new = re.sub(r'\s*\n\s*', ' ', new)
+            d = old.count('\n')
+        text = text[:toks[r0].s] + new + '\n' * d + text[toks[last].e:]
+        n += 1
+    if n:
+        dropped.append(('iter-arg', f'{n}x iterator chain (iter + filter/map stages) written as a loop that builds a Vec'))
+    return text
+
+
 def rule_lock_scope(text, dropped):
     """Make the lifetime of a shard-lock guard explicit and count it in the ghost variable `verif_locks`.
        `RECV.write().with(|mut NAME| BODY)`  ->  `{ let mut NAME = RECV.verif_lock_write(); proof { verif_locks = verif_locks + 1; }
@@ -814,6 +876,7 @@ RULES = {
     'option-map': rule_option_map,
     'iter-reduce': rule_iter_reduce,
     'handle-ctor': rule_handle_ctor,
+    'iter-arg': rule_iter_arg,
 }
 
 
